@@ -549,27 +549,29 @@ inductive PlaceRes where
   | reject              -- this region was inappropriate, try the next one
   | fail                -- RECTALLOC_BAIL failed: the region's block has been freed
 
+/-- which block needs one more slot when `box` goes into region `r` (`none`: it is merged into
+    ri_box, no slot needed).  New band: COALESCE first, then RECTALLOC_BAIL (reg, 1). -/
+def placeNeed (r : RIA) (box : Box) : Option Blk :=
+  match r.ri.cur with
+  | [] => none
+  | rb :: _ =>
+    if box.y1 == rb.y1 && box.y2 == rb.y2 then
+      if box.x1 ≤ rb.x2 then none else some r.blk
+    else
+      some (if coalesceMerged r.ri.out r.ri.cur.reverse then
+              { r.blk with num := r.blk.num - r.ri.cur.length } else r.blk)
+
 /-- the body of the `for j` loop for one region -/
 def placeA (c : Cfg) (s : Sched) (r : RIA) (box : Box) (h : Heap) : PlaceRes × Heap :=
-  match r.ri.cur with
-  | [] => (.reject, h)
-  | rb :: _ =>
-    match r.ri.place box with
-    | none => (.reject, h)
-    | some ri' =>
-      if box.y1 == rb.y1 && box.y2 == rb.y2 then
-        if box.x1 ≤ rb.x2 then (.placed ⟨ri', r.blk⟩, h)        -- merged with ri_box
-        else
-          match addBlk c s r.blk 1 h with
-          | (some b, h') => (.placed ⟨ri', b⟩, h')
-          | (none, h') => (.fail, h')
-      else
-        -- new band: COALESCE, then RECTALLOC_BAIL (reg, 1)
-        let merged := coalesceMerged r.ri.out r.ri.cur.reverse
-        let b0 : Blk := if merged then { r.blk with num := r.blk.num - r.ri.cur.length } else r.blk
-        match addBlk c s b0 1 h with
-        | (some b, h') => (.placed ⟨ri', b⟩, h')
-        | (none, h') => (.fail, h')
+  match r.ri.place box with
+  | none => (.reject, h)
+  | some ri' =>
+    match placeNeed r box with
+    | none => (.placed ⟨ri', r.blk⟩, h)
+    | some b0 =>
+      match addBlk c s b0 1 h with
+      | (some b, h') => (.placed ⟨ri', b⟩, h')
+      | (none, h') => (.fail, h')
 
 structure VSt where
   ris : List RIA
@@ -597,36 +599,40 @@ def tryPlace (c : Cfg) (s : Sched) (box : Box) : List RIA → List RIA → Heap 
 
 def blkIds (l : List RIA) : List Nat := l.map (·.blk.id)
 
+/-- `if (size_ri == num_ri)`: double the ri[] array — malloc when it still lives on the stack,
+    realloc afterwards; `none`: refused (goto bail) -/
+def growRi (s : Sched) (st : VSt) (h : Heap) : Option (Nat × Option Nat) × Heap :=
+  if st.cap == st.ris.length then
+    match st.arr with
+    | none =>
+      match h.malloc s with
+      | (some id, h') => (some (st.cap * 2, some id), h')
+      | (none, h') => (none, h')
+    | some id =>
+      match h.realloc s id with
+      | (true, h') => (some (st.cap * 2, some id), h')
+      | (false, h') => (none, h')
+  else (some (st.cap, st.arr), h)
+
+/-- "Uh-oh. No regions were appropriate. Create a new one." -/
+def newRi (c : Cfg) (s : Sched) (st : VSt) (i : Nat) (box : Box) (h : Heap) : ScatterRes × Heap :=
+  match growRi s st h with
+  | (none, h') => (.bail (blkIds st.ris) st.arr, h')
+  | (some g, h') =>
+    let n := (i + (st.ris.length + 1)) / (st.ris.length + 1)
+    -- MUST force allocation: data == NULL branch of pixman_rect_alloc
+    match allocData c s (n + 1) h' with
+    | (some id, h3) =>
+      let r : RIA := ⟨{ extents := box, out := ⟨[], []⟩, cur := [box] }, ⟨id, n + 1, 1⟩⟩
+      (.ok { ris := st.ris ++ [r], cap := g.1, arr := g.2 }, h3)
+    | (none, h3) => (.bail (blkIds st.ris) g.2, h3)
+
 /-- one iteration of the `for i` loop; `i` is the C loop variable (rectangles left incl. this) -/
 def scatterStepA (c : Cfg) (s : Sched) (st : VSt) (i : Nat) (box : Box) (h : Heap) : ScatterRes × Heap :=
   match tryPlace c s box [] st.ris h with
   | (.placed l, h') => (.ok { st with ris := l }, h')
   | (.failed dead, h') => (.bail ((blkIds st.ris).erase dead) st.arr, h')
-  | (.nobody, h') =>
-    -- create a new region; grow ri[] first if it is full
-    let numRi := st.ris.length
-    let grown : Option (Nat × Option Nat) × Heap :=
-      if st.cap == numRi then
-        match st.arr with
-        | none =>
-          match h'.malloc s with
-          | (some id, h'') => (some (st.cap * 2, some id), h'')
-          | (none, h'') => (none, h'')
-        | some id =>
-          match h'.realloc s id with
-          | (true, h'') => (some (st.cap * 2, some id), h'')
-          | (false, h'') => (none, h'')
-      else (some (st.cap, st.arr), h')
-    match grown with
-    | (none, h'') => (.bail (blkIds st.ris) st.arr, h'')
-    | (some (cap', arr'), h'') =>
-      let n := (i + (numRi + 1)) / (numRi + 1)
-      -- MUST force allocation: data == NULL branch of pixman_rect_alloc
-      match allocData c s (n + 1) h'' with
-      | (some id, h3) =>
-        let r : RIA := ⟨{ extents := box, out := ⟨[], []⟩, cur := [box] }, ⟨id, n + 1, 1⟩⟩
-        (.ok { ris := st.ris ++ [r], cap := cap', arr := arr' }, h3)
-      | (none, h3) => (.bail (blkIds st.ris) arr', h3)
+  | (.nobody, h') => newRi c s st i box h'
 
 def scatterA (c : Cfg) (s : Sched) : VSt → List Box → Heap → ScatterRes × Heap
   | st, [], h => (.ok st, h)
@@ -727,6 +733,25 @@ def initRectsA (c : Cfg) (s : Sched) (boxes : List Box) (h : Heap) : Bool × Reg
 
 /-! ### translate -/
 
+/-- the boxes of the slow path of translate: moved, dropped when entirely out of range, clamped -/
+def clampList (c : Cfg) (dx dy : Int) (l : List Box) : List Box :=
+  l.filterMap fun b =>
+    let bx1 := b.x1 + dx
+    let by1 := b.y1 + dy
+    let bx2 := b.x2 + dx
+    let by2 := b.y2 + dy
+    if outOfRange c bx1 by1 bx2 by2 then none
+    else some (clampBox c bx1 by1 bx2 by2)
+
+/-- the end of the slow path on the block `id`: 0 / 1 / several boxes left (the latter re-validated) -/
+def translateTail (c : Cfg) (s : Sched) (e : Box) (id sz : Nat) (l' : List Box) (h : Heap) : RegionA × Heap :=
+  match l' with
+  | [] => (⟨collapse e, .emptyStatic⟩, h.free id)
+  | [b] => (⟨b, .single⟩, h.free id)
+  | _ =>
+    let p := validateA c s id sz l' h
+    (p.2.1, p.2.2)
+
 /-- pixman_region_translate (void): a failure inside validate leaves the region broken -/
 def translateA (c : Cfg) (s : Sched) (r : RegionA) (dx dy : Int) (h : Heap) : RegionA × Heap :=
   let x1 := r.extents.x1 + dx
@@ -746,20 +771,8 @@ def translateA (c : Cfg) (s : Sched) (r : RegionA) (dx dy : Int) (h : Heap) : Re
     let e := clampBox c x1 y1 x2 y2
     match r.data with
     | .heap id sz l =>
-      if l.isEmpty then (⟨e, r.data⟩, h) else
-      let l' := l.filterMap fun b =>
-        let bx1 := b.x1 + dx
-        let by1 := b.y1 + dy
-        let bx2 := b.x2 + dx
-        let by2 := b.y2 + dy
-        if outOfRange c bx1 by1 bx2 by2 then none
-        else some (clampBox c bx1 by1 bx2 by2)
-      match l' with
-      | [] => (⟨collapse e, .emptyStatic⟩, h.free id)
-      | [b] => (⟨b, .single⟩, h.free id)
-      | _ =>
-        let p := validateA c s id sz l' h
-        (p.2.1, p.2.2)
+      if l.isEmpty then (⟨e, r.data⟩, h)
+      else translateTail c s e id sz (clampList c dx dy l) h
     | d => (⟨e, d⟩, h)
 
 /-! ### init_from_image -/
@@ -802,7 +815,7 @@ def initFromImageA (c : Cfg) (s : Sched) (width : Nat) (rows : List (List Bool))
     match g.data with
     | .heap l => (⟨g.extents, .heap b.id b.size l⟩, h')
     | .single => (⟨g.extents, .single⟩, h'.free b.id)
-    | _ => (⟨g.extents, .emptyStatic⟩, h')
+    | _ => (⟨g.extents, .emptyStatic⟩, h'.free b.id)   -- unreachable: a block exists only if a rectangle was added
 
 /-! ### pixman-utils.c conversions -/
 
